@@ -739,3 +739,117 @@ func vpC06SwapNilEmpty(tx *SignedTransaction) {
 		}
 	}
 }
+
+// The encoding and the hash are functions of the transaction's content, not of
+// what was called on the object before: every accessor result on an object with
+// a call history must equal the result on a fresh copy that has no history, and
+// byte slices handed out earlier must not change under later calls (the
+// payload encoding is cached inside the object; signatures may be attached or
+// replaced between calls, as the signing helpers do).
+func TestVP_C06_call_sequences(t *testing.T) {
+	c := kit.New(t, "C06", "rapid: one transaction object per case (tiny or full generator) on which a drawn sequence of 3..12 calls is made: PayloadMarshal, PayloadHash, Marshal, signature section replaced (maps -> other maps / aggregate / none) between calls; oracle: each result equals the result of the same accessor on a fresh deep copy of the current content, results handed out earlier are still byte-identical afterwards, the payload encoding/hash never change when only signatures change; non-trivial = sequence with a Marshal between two payload accessors and a signature change; distinct by payload hash + call list")
+	c.Require("marshal-between-payload-calls", "signature-change", "first-call-payload", "first-call-marshal", "first-call-hash")
+	kit.SetChecks(kit.N(600, 40000))
+	rapid.Check(t, func(t *rapid.T) {
+		var tx *SignedTransaction
+		if rapid.Bool().Draw(t, "tiny") {
+			tx = vpC06GenTiny(t, "cs")
+		} else {
+			tx, _ = vpC06GenTx(t)
+			if len(tx.Extra) > 20000 {
+				tx.Extra = tx.Extra[:20000]
+			}
+		}
+		ver := &VersionedTransaction{SignedTransaction: *vpC06Clone(tx)}
+		fresh := func() *VersionedTransaction {
+			return &VersionedTransaction{SignedTransaction: *vpC06Clone(&ver.SignedTransaction)}
+		}
+		type handed struct {
+			what string
+			got  []byte
+			want []byte
+		}
+		var out []handed
+		var calls []string
+		var payload0 []byte
+		n := rapid.IntRange(3, 12).Draw(t, "ncalls")
+		sawPayload, marshalAfterPayload, sigChange := false, false, false
+		for i := 0; i < n; i++ {
+			op := rapid.SampledFrom([]string{"payload", "hash", "marshal", "marshal", "resign"}).Draw(t, "call")
+			if i == 0 {
+				c.Class("first-call-" + op)
+			}
+			calls = append(calls, op)
+			switch op {
+			case "payload":
+				var got, want []byte
+				if p := vpCatch(func() { got = ver.PayloadMarshal(); want = fresh().PayloadMarshal() }); p != nil {
+					t.Skip("not encodable")
+				}
+				if !bytes.Equal(got, want) {
+					t.Fatalf("PayloadMarshal after %v differs from a fresh object's:\n got  …%x\n want …%x", calls, got[max(0, len(got)-12):], want[max(0, len(want)-12):])
+				}
+				if payload0 == nil {
+					payload0 = append([]byte{}, got...)
+				} else if !bytes.Equal(payload0, got) {
+					t.Fatalf("payload encoding changed although only signatures changed (calls %v)", calls)
+				}
+				out = append(out, handed{"PayloadMarshal", got, append([]byte{}, got...)})
+				if marshalAfterPayload {
+					c.Class("marshal-between-payload-calls")
+				}
+				sawPayload = true
+			case "hash":
+				var got, want crypto.Hash
+				if p := vpCatch(func() { got = ver.PayloadHash(); want = fresh().PayloadHash() }); p != nil {
+					t.Skip("not encodable")
+				}
+				if got != want {
+					t.Fatalf("PayloadHash after %v is %s, a fresh object with the same content gives %s", calls, got, want)
+				}
+				if marshalAfterPayload {
+					c.Class("marshal-between-payload-calls")
+				}
+				sawPayload = true
+			case "marshal":
+				var got, want []byte
+				if p := vpCatch(func() { got = ver.Marshal(); want = fresh().Marshal() }); p != nil {
+					t.Skip("not encodable")
+				}
+				if !bytes.Equal(got, want) {
+					t.Fatalf("Marshal after %v differs from a fresh object's (%d vs %d bytes)", calls, len(got), len(want))
+				}
+				out = append(out, handed{"Marshal", got, append([]byte{}, got...)})
+				if sawPayload {
+					marshalAfterPayload = true
+				}
+			case "resign":
+				switch rapid.IntRange(0, 2).Draw(t, "resign_kind") {
+				case 0:
+					ver.AggregatedSignature, ver.SignaturesMap = nil, nil
+				case 1:
+					ver.AggregatedSignature = nil
+					ver.SignaturesMap = []map[uint16]*crypto.Signature{{vpC06SigIndex(t, "rs_idx"): vpC06Sig(t, "rs_sig")}}
+					if rapid.Bool().Draw(t, "rs_two") {
+						ver.SignaturesMap = append(ver.SignaturesMap, map[uint16]*crypto.Signature{})
+					}
+				default:
+					ver.SignaturesMap = nil
+					ver.AggregatedSignature = &AggregatedSignature{Signers: []int{0, 3}, Signature: *vpC06Sig(t, "rs_agg")}
+				}
+				sigChange = true
+				c.Class("signature-change")
+			}
+			for _, h := range out {
+				if !bytes.Equal(h.got, h.want) {
+					t.Fatalf("bytes returned earlier by %s were overwritten by a later call (calls %v)", h.what, calls)
+				}
+			}
+		}
+		fp := ""
+		if payload0 != nil {
+			fp = vpC06FP(payload0)
+		}
+		c.Case(fp+fmt.Sprint(calls), marshalAfterPayload && sigChange)
+	})
+}
